@@ -144,22 +144,7 @@ func c05r2(c *Ctx) {
 		return ok && !eq // a return on the err != nil side
 	})
 	c.Check("initConnection:failed initializeProxy closes the connection", inits[0].Pos(), bad == nil, "the error path of initializeProxy returns without closeConnection: a dead connection stays registered")
-	// R2b: registration before initialisation only helps if the push fan-out sees uninitialised connections: nothing
-	// between StartPush and Enqueue filters on the connection's initialised state, and the fan-out reads adsClients.
-	startPush := p.Func(pkgXds, "DiscoveryServer", "StartPush")
-	enq := p.FuncObj(pkgXds, "PushQueue", "Enqueue")
-	reach := p.CG().Reach([]*ssa.Function{startPush}, func(f *ssa.Function) bool { o, _ := f.Object().(*types.Func); return o != nil && o == enq })
-	adsClients := p.Field(pkgXds, "DiscoveryServer", "adsClients")
-	initField := p.Field(pkgXdsLib, "Connection", "initialized")
-	eff := effectsOf(reach)
-	_, readsClients := eff.Reads[adsClients]
-	c.Check("StartPush:fans out over adsClients", startPush.Pos(), readsClients && len(callsIn(startPush, enq)) >= 1, "StartPush no longer enqueues the connections registered in adsClients")
-	acc, filters := eff.Reads[initField]
-	det := ""
-	if filters {
-		det = "the push fan-out consults the connection's initialised state (" + pathTo(reach, acc.Fn) + "): a snapshot built while a (re)connecting proxy is between addCon and MarkInitialized is never enqueued for it, defeating register-before-initialise"
-	}
-	c.Check("StartPush:no initialisation filter before Enqueue", acc.Pos, !filters, det)
+	startPushFanOut(c)
 	c.Floor(9)
 }
 
@@ -389,4 +374,27 @@ func c05r5(c *Ctx) {
 	}
 	c.Check("BuildHTTPRoutes:sidecar loop found", rf.Pos(), m == 1, "expected one sidecar/waypoint loop over routeNames")
 	c.Floor(5)
+}
+
+
+// startPushFanOut (C05-R2b, shared as C02-R8): registration before initialisation only helps if the push fan-out sees
+// uninitialised connections.
+func startPushFanOut(c *Ctx) {
+	p := c.P
+	// R2b: registration before initialisation only helps if the push fan-out sees uninitialised connections: nothing
+	// between StartPush and Enqueue filters on the connection's initialised state, and the fan-out reads adsClients.
+	startPush := p.Func(pkgXds, "DiscoveryServer", "StartPush")
+	enq := p.FuncObj(pkgXds, "PushQueue", "Enqueue")
+	reach := p.CG().Reach([]*ssa.Function{startPush}, func(f *ssa.Function) bool { o, _ := f.Object().(*types.Func); return o != nil && o == enq })
+	adsClients := p.Field(pkgXds, "DiscoveryServer", "adsClients")
+	initField := p.Field(pkgXdsLib, "Connection", "initialized")
+	eff := effectsOf(reach)
+	_, readsClients := eff.Reads[adsClients]
+	c.Check("StartPush:fans out over adsClients", startPush.Pos(), readsClients && len(callsIn(startPush, enq)) >= 1, "StartPush no longer enqueues the connections registered in adsClients")
+	acc, filters := eff.Reads[initField]
+	det := ""
+	if filters {
+		det = "the push fan-out consults the connection's initialised state (" + pathTo(reach, acc.Fn) + "): a snapshot built while a (re)connecting proxy is between addCon and MarkInitialized is never enqueued for it, defeating register-before-initialise"
+	}
+	c.Check("StartPush:no initialisation filter before Enqueue", acc.Pos, !filters, det)
 }
